@@ -94,12 +94,61 @@ Definition mkSeq (a b : re) : re :=
   | _, _ => Seq a b
   end.
 
-Definition mkAlt (a b : re) : re :=
+(* a total pre-order used only to keep alternatives sorted (no property of it is needed) *)
+Definition re_rank (r : re) : nat :=
+  match r with
+  | Emp => 0 | Eps => 1 | Cls _ => 2 | Seq _ _ => 3 | Alt _ _ => 4 | Rep _ _ _ => 5
+  | Grp _ _ => 6 | NLook _ _ => 7 | WordB => 8 | Bol => 9 | Eol => 10
+  end.
+
+Definition lex (c1 c2 : comparison) : comparison :=
+  match c1 with Eq => c2 | _ => c1 end.
+
+Definition onat_compare (a b : option nat) : comparison :=
   match a, b with
-  | Emp, _ => b
-  | _, Emp => a
-  | _, Alt b1 b2 => if re_eqb a b1 then b else if re_eqb a b2 then b else Alt a b
-  | _, _ => if re_eqb a b then a else Alt a b
+  | None, None => Eq
+  | None, Some _ => Gt
+  | Some _, None => Lt
+  | Some x, Some y => Nat.compare x y
+  end.
+
+Fixpoint re_compare (x y : re) : comparison :=
+  match x, y with
+  | Cls m, Cls m' => N.compare m m'
+  | Seq a b, Seq a' b' => lex (re_compare a a') (re_compare b b')
+  | Alt a b, Alt a' b' => lex (re_compare a a') (re_compare b b')
+  | Rep lo hi a, Rep lo' hi' a' =>
+      lex (Nat.compare lo lo') (lex (onat_compare hi hi') (re_compare a a'))
+  | Grp k a, Grp k' a' => lex (Nat.compare k k') (re_compare a a')
+  | NLook d a, NLook d' a' =>
+      lex (match d, d' with false, true => Lt | true, false => Gt | _, _ => Eq end) (re_compare a a')
+  | _, _ => Nat.compare (re_rank x) (re_rank y)
+  end.
+
+(* insert the alternative x into the right-nested, sorted, duplicate-free alternation b *)
+Fixpoint alt_insert (x b : re) : re :=
+  match b with
+  | Emp => x
+  | Alt y b' =>
+      match re_compare x y with
+      | Lt => Alt x b
+      | Eq => if re_eqb x y then b else Alt x b
+      | Gt => Alt y (alt_insert x b')
+      end
+  | _ =>
+      match re_compare x b with
+      | Lt => Alt x b
+      | Eq => if re_eqb x b then b else Alt x b
+      | Gt => Alt b x
+      end
+  end.
+
+(* alternation modulo associativity, commutativity and idempotence *)
+Fixpoint mkAlt (a b : re) : re :=
+  match a with
+  | Emp => b
+  | Alt a1 a2 => mkAlt a1 (mkAlt a2 b)
+  | _ => alt_insert a b
   end.
 
 Definition mkRep (lo : nat) (hi : option nat) (a : re) : re :=
